@@ -49,10 +49,22 @@ Definition opt_assoc (o : Z) (l : option (list (Z * Z))) : option Z :=
 
 (* ---- structured values ---- *)
 
-(* a timeout is a non-negative rational number of seconds; a rendering [s] of [v] is faithful
-   when parsing it gives back [v] (as a rational number) *)
-Definition faithful_rendering (parse : list Z -> option Q) (s : list Z) (v : Q) : Prop :=
-  exists w, parse s = Some w /\ (w == v)%Q.
+(* what a timeout value denotes: a rational number of seconds, or (the float type has them and
+   the parser produces them) an infinity or "not a number".  The two zeros denote the same
+   number. *)
+Inductive tval := TNan | TInf (neg : bool) | TFin (q : Q).
+
+Definition same_tval (a b : tval) : Prop :=
+  match a, b with
+  | TNan, TNan => True
+  | TInf x, TInf y => x = y
+  | TFin p, TFin q => (p == q)%Q
+  | _, _ => False
+  end.
+
+(* a rendering [s] of [v] is faithful when parsing it gives back what [v] denotes *)
+Definition faithful_rendering (parse : list Z -> option tval) (s : list Z) (v : tval) : Prop :=
+  exists w, parse s = Some w /\ same_tval w v.
 
 (* two lists denote the same set *)
 Definition same_set (a b : list Z) : Prop := forall x, In x a <-> In x b.
